@@ -53,6 +53,7 @@ func checkC04(c *Ctx, r *Report) {
 	codecExitsOnly(c, r, "C04.R2.question-exits", "unpackQuestion", 3, "a question name that arrives compressed (the packer compresses the second and later questions) is refused")
 	pointersOnlyFromPacker(c, r, "C04.R3.pointer-writers")
 	ctorByTypeOnly(c, r, "C04.R2.ctor-by-type")
+	pointerLimitAdmitsOwnOutput(c, r, "C04.R5.pointer-limit")
 }
 
 // c04R4b: the map accessors index with the key they are given (no normalisation inside find/insert).
